@@ -438,7 +438,52 @@ def spline_dispatch_case(avail_start, avail_end, avail_mid):
     return out["v"]
 
   def replay(v, w, path, structural):
-    return (True, "region dispatch of Custom_SplinePotential disagrees with the statement (witness %r)" % {k: w.get(k) for k in ("r", "detach", "attach")}, {})
+    import math
+
+    def mk(i, a_):
+      A, B = 1.5 + 0.4 * i, 0.3 + 0.1 * i
+
+      class L(object):
+        def __call__(self, x): return A + math.sin(B * x) * 0.5
+      l = L()
+      l.true_d = lambda x: 0.5 * B * math.cos(B * x)
+      l.true_d2 = lambda x: -0.5 * B * B * math.sin(B * x)
+      if a_[0]:
+        l.deriv = l.true_d
+      if a_[1]:
+        l.deriv2 = l.true_d2
+      return l
+    fs = {k: mk(i, av[k]) for i, k in enumerate(("S", "E", "M"))}
+    dv, at = 1.0, 2.5
+    if isinstance(w.get("detach"), float) and isinstance(w.get("attach"), float) and w["detach"] < w["attach"]:
+      dv, at = w["detach"], w["attach"]
+
+    class Spl(object):
+      detach_point = Spline_Point(fs["S"], dv)
+      attach_point = Spline_Point(fs["E"], at)
+
+      def __call__(self, x):
+        return fs["M"](x)
+    spl = Spl()
+    if av["M"][0]:
+      spl.deriv = fs["M"].deriv
+    if av["M"][1]:
+      spl.deriv2 = fs["M"].deriv2
+    sp = Custom_SplinePotential(spl)
+    pts = [dv - 0.5, dv, 0.5 * (dv + at), at, at + 0.5]
+    if isinstance(w.get("r"), float):
+      pts.append(w["r"])
+    bad = []
+    for x in pts:
+      k = "S" if x <= dv else ("E" if x >= at else "M")
+      f = fs[k]
+      if abs(sp(x) - f(x)) > 1e-12:
+        bad.append("value at r=%r is not the %s function" % (x, k))
+      if hasattr(sp, "deriv") and abs(sp.deriv(x) - f.true_d(x)) > 1e-5:
+        bad.append("deriv at r=%r = %r, %s function's slope %r" % (x, sp.deriv(x), k, f.true_d(x)))
+      if hasattr(sp, "deriv2") and abs(sp.deriv2(x) - f.true_d2(x)) > 1e-3:
+        bad.append("deriv2 at r=%r = %r, %s function's curvature %r" % (x, sp.deriv2(x), k, f.true_d2(x)))
+    return (bool(bad), "; ".join(bad[:3]) or "region dispatch agrees", dict(kind="spline_dispatch", detach=dv, attach=at))
 
   explore_and_check(res, fn, build2, replay=replay, negative=lambda p: build2(p, wrong=True))
   return res
